@@ -76,6 +76,11 @@ PID = "C15"
 # module that are not yet in known_findings.json.  A failure whose signature is listed here does
 # not fail the check (it is counted in coverage['pending_findings_seen']); once the signature is
 # registered as a known finding it prints as KNOWN-FINDING and can be dropped from this list.
+# NOT findings of property C15 (decided by the framework owner): C15 is about the TREE that comes back (paths, types,
+# bytes, sizes, times); which compression method the members carry is not part of it.  The two observations below are
+# real defects of the library (the `compression` argument is ignored for memory-backed sources; ZIP_STORED (0) is
+# treated as "not given" by WriteZipFS.write_zip), recorded in DESIGN.md 9.5 as "observed, not covered by a property";
+# they are counted in the evidence and never fail this check.
 PENDING_FINDINGS = [
     # ZipFS(f, write=True, compression=ZIP_DEFLATED|ZIP_BZIP2|ZIP_LZMA, temp_fs='mem://') and
     # fs.compress.write_zip(MemoryFS, f, compression=...): every file is ZIP_STORED.  write_zip passes a fresh
@@ -1596,6 +1601,9 @@ def run(report):
             print("NOTE: C15 keyword parameter without a value table (not swept): %s" % u)
     finally:
         shutil.rmtree(workdir, ignore_errors=True)
+    # tree-level model (Archive/TreeArch*.v): writers' member lists and readers' presented trees vs the model
+    import h_treearch
+    cov.update(h_treearch.run_tree_checks(report, random.Random(report.seed + 1500), report.tier))
     return report.finish(proof, cov, assumptions=[
         "zipfile / tarfile / zlib / bz2 / lzma of the running Python are trusted as the archive codecs",
         "modification times are compared at the format's resolution: tar floor(t); zip floor(t) rounded down to an "
@@ -1608,6 +1616,11 @@ def run(report):
 def replay(report, path):
     with open(path) as fh:
         d = json.load(fh)
+    if d.get("kind") == "archive-tree-differs-from-model":
+        import h_treearch
+        r = h_treearch.replay_tree(d)
+        print(r)
+        return 0 if r["same"] else 1
     workdir = tempfile.mkdtemp(prefix="pyfs2verif_c15_")
     try:
         case = d.get("case")
